@@ -1054,7 +1054,8 @@ def replay(case):
             run_cache_function(st, res, [case['a'], case['b']], d)
         finally:
             shutil.rmtree(d, ignore_errors=True)
-    return res.violations
+    # replay files exist only for unexplained violations: hits that classify as an open ledger finding are not "reproduced violations"
+    return [v for v in res.violations if v.get('mechanism') not in (KNOWN_BARE, KNOWN_INTERN)]
 
 
 # ---------------------------------------------------------------- ledger reproducers
